@@ -223,6 +223,266 @@ Proof.
     reflexivity.
 Qed.
 
+(* ---- world agreement: congruence, transfers, resuming the caller ---- *)
+Definition sw_equiv (w1 w2 : sworld) : Prop :=
+  (forall a, sw_get_code w1 a = sw_get_code w2 a) /\
+  (forall a, sw_has_account w1 a = sw_has_account w2 a) /\
+  (forall a, get_writes (sw_store w1) a = get_writes (sw_store w2) a) /\
+  (forall a, get_writes (sw_tstore w1) a = get_writes (sw_tstore w2) a) /\
+  (forall a, sw_balance w1 a = sw_balance w2 a).
+
+Lemma WA_equiv : forall w1 w2 cw, sw_equiv w1 w2 -> WA w1 cw -> WA w2 cw.
+Proof.
+  intros w1 w2 cw [e1 [e2 [e3 [e4 e5]]]] [c1 c2 c3 c4 c5 c6]. constructor; intros.
+  - rewrite <- e1. apply c1.
+  - rewrite <- e2. apply c2.
+  - rewrite <- e3. apply c3.
+  - rewrite <- e4. apply c4.
+  - rewrite <- e5. apply c5.
+  - rewrite <- e1. apply c6.
+Qed.
+
+(* syncing a frame whose storage was just loaded from the world changes nothing *)
+Lemma sync_loaded_equiv : forall fr w sg,
+  ss_store sg = get_writes (sw_store w) (f_this fr) ->
+  ss_tstore sg = get_writes (sw_tstore w) (f_this fr) ->
+  sw_equiv w (sync fr w sg).
+Proof.
+  intros fr w sg H1 H2. unfold sw_equiv, sync. cbn [sw_store sw_tstore sw_code sw_bal].
+  repeat split; try reflexivity.
+  - intros a. destruct (Z.eq_dec a (f_this fr)) as [->|Hne].
+    + rewrite get_writes_head. symmetry. exact H1.
+    + rewrite get_writes_other by exact Hne. reflexivity.
+  - intros a. destruct (Z.eq_dec a (f_this fr)) as [->|Hne].
+    + rewrite get_writes_head. symmetry. exact H2.
+    + rewrite get_writes_other by exact Hne. reflexivity.
+Qed.
+
+Lemma get_balance_set : forall cw a v b,
+  get_balance (set_balance cw a v) b = if b =? a then v else get_balance cw b.
+Proof.
+  intros cw a v b. unfold get_balance, set_balance, aset. cbn [w_balance alookup].
+  destruct (b =? a); reflexivity.
+Qed.
+
+Lemma sw_balance_set : forall w a t b,
+  sw_balance (sw_set_balance w a t) b = if b =? a then t else sw_balance w b.
+Proof.
+  intros w a t b. unfold sw_balance, sw_set_balance. cbn [sw_bal alookup].
+  destruct (b =? a); reflexivity.
+Qed.
+
+Lemma WA_transfer : forall w cw a b v,
+  WA w cw -> WA (sw_transfer w a b v) (transfer cw a b (eval rho v)).
+Proof.
+  intros w cw a b v [c1 c2 c3 c4 c5 c6]. constructor; auto.
+  intros x. unfold transfer, sw_transfer.
+  rewrite get_balance_set, sw_balance_set.
+  destruct (x =? b) eqn:E.
+  - cbn [eval]. rewrite get_balance_set, sw_balance_set.
+    destruct (b =? a); cbn [eval]; rewrite ?c5; reflexivity.
+  - rewrite get_balance_set, sw_balance_set.
+    destruct (x =? a); cbn [eval]; rewrite ?c5; reflexivity.
+Qed.
+
+Lemma outcome2_definite : forall k r,
+  outcome2 k r -> (match k with K2Stuck _ | K2Fuel | K2Early => True | _ => r <> RFuel end).
+Proof.
+  intros k r H. destruct k; cbn in *; auto.
+  - destruct H as [cw [logs [-> _]]]. discriminate.
+  - subst r. discriminate.
+  - subst r. discriminate.
+Qed.
+
+(* one concrete step whose only use of the sub-frame runner is the call whose result we know,
+   followed by a continuation *)
+Lemma step_then : forall e s s_cont k sub w1c ctrc rsub n1,
+  exec lim n1 sub (init_state w1c ctrc) = rsub -> rsub <> RFuel ->
+  (forall rs, rs sub w1c ctrc = rsub -> step lim rs e s = Continue s_cont) ->
+  (exists n2, outcome2 k (exec lim n2 e s_cont)) ->
+  exists n, outcome2 k (exec lim n e s).
+Proof.
+  intros e s s_cont k sub w1c ctrc rsub n1 H1 Hne Hstep [n2 H2].
+  pose proof (outcome2_definite _ _ H2) as Hdef.
+  destruct k; try (exists O; exact I).
+  all: exists (S (Nat.max n1 n2)); cbn [exec];
+    rewrite (Hstep _ (exec_mono lim n1 sub (init_state w1c ctrc) rsub H1 Hne _ (Nat.le_max_l n1 n2)));
+    rewrite (exec_mono lim n2 e s_cont _ eq_refl Hdef _ (Nat.le_max_r n1 n2)); exact H2.
+Qed.
+
+(* one concrete step that does not consult the runner, then a continuation *)
+Lemma step_then0 : forall e s s_cont k,
+  (forall rs, step lim rs e s = Continue s_cont) ->
+  (exists n2, outcome2 k (exec lim n2 e s_cont)) ->
+  exists n, outcome2 k (exec lim n e s).
+Proof.
+  intros e s s_cont k Hstep [n2 H2]. exists (S n2). cbn [exec]. rewrite Hstep. exact H2.
+Qed.
+
+(* the caller's state after a sub-frame returned *)
+Lemma R2_resume : forall fr w ctr sg s g r w' cw' ctr' status ret ro rsz p m1c logs,
+  R2 fr w ctr sg s ->
+  ss_stack sg = g ++ r -> (1 <= length g)%nat ->
+  WA w' cw' ->
+  (forall i, nth i m1c 0 = nth i (s_mem s) 0) ->
+  (Z.to_nat rsz <> 0%nat -> (Z.to_nat ro + Z.to_nat rsz <= length m1c)%nat) ->
+  R2 fr w' ctr' (resume fr sg r status ret ro rsz w' p)
+     (mkSt (S (s_pc s)) (status :: map (eval rho) r)
+           (let n := Nat.min (Z.to_nat rsz) (length (map (beval rho) ret)) in
+            if (n =? 0)%nat then m1c else mwrite m1c (Z.to_nat ro) (firstn n (map (beval rho) ret)))
+           (map (beval rho) ret) cw' ctr' logs).
+Proof.
+  intros fr w ctr sg s g r w' cw' ctr' status ret ro rsz p m1c logs H2 Hst Hg HW Hm Hlen.
+  destruct H2 as [h1 h2 h3 h4 h5 h6 h7 h8].
+  constructor; cbn [s_pc s_stack s_mem s_ret s_ctr s_world resume ss_pc ss_stack ss_mem ss_ret ss_store ss_tstore].
+  - rewrite h1. reflexivity.
+  - reflexivity.
+  - rewrite Hst, app_length in h3. cbn [length]. lia.
+  - intros i. rewrite map_length.
+    set (n := Nat.min (Z.to_nat rsz) (length ret)).
+    destruct (n =? 0)%nat eqn:En.
+    + rewrite Hm. apply h4.
+    + apply Nat.eqb_neq in En.
+      assert (Hn : (n <= Z.to_nat rsz)%nat) by (subst n; apply Nat.le_min_l).
+      assert (Hl : length (firstn n (map (beval rho) ret)) = n).
+      { rewrite firstn_length, map_length. subst n. lia. }
+      rewrite mwrite_nth by (rewrite Hl; specialize (Hlen ltac:(lia)); lia).
+      rewrite smwrite_nth, <- firstn_map, Hl.
+      assert (Hl2 : length (firstn n ret) = n) by (rewrite firstn_length; subst n; lia).
+      rewrite Hl2.
+      destruct ((Z.to_nat ro <=? i) && (i <? Z.to_nat ro + n))%nat; [reflexivity|].
+      rewrite Hm. apply h4.
+  - reflexivity.
+  - reflexivity.
+  - eapply WA_equiv; [|exact HW]. apply sync_loaded_equiv; reflexivity.
+  - exact h8.
+Qed.
+
+(* do_call after argument parsing *)
+Definition call_body (rs : env -> world -> Z -> result) (e : env) (s : mstate) (op : Z)
+           (to0 v ao asz ro rsz : Z) (r : list Z) : step_result :=
+  let to := to0 mod 2 ^ 160 in
+  if (op =? 241) && e_static e && negb (v =? 0) then halt s H_STATIC
+  else if oog_range lim ao asz || oog_range lim ro rsz then halt s H_OOG
+  else if ((1 <=? to) && (to <=? 10)) then Done (RUnsupported 1)
+  else
+    let m1 := mexpand (mexpand (s_mem s) (Z.to_nat ao) (Z.to_nat asz)) (Z.to_nat ro) (Z.to_nat rsz) in
+    let data := mread m1 (Z.to_nat ao) (Z.to_nat asz) in
+    let w := s_world s in
+    let fail_now (ret : list Z) (ctr : Z) :=
+      Continue (mkSt (S (s_pc s)) (0 :: r) m1 ret w ctr (s_logs s)) in
+    if (1024 <? Z.of_nat (e_depth e) + 1) then fail_now [] (s_ctr s)
+    else if ((op =? 241) || (op =? 242)) && (get_balance w (e_this e) <? v) then fail_now [] (s_ctr s)
+    else
+      let w1 := if op =? 241 then transfer w (e_this e) to v else w in
+      let sub :=
+        mkEnv (if (op =? 241) || (op =? 250) then to else e_this e)
+              (get_code w to)
+              (if op =? 244 then e_caller e else e_this e)
+              (e_origin e)
+              (if op =? 244 then e_value e else v)
+              data
+              (e_static e || (op =? 250))
+              (S (e_depth e))
+              (e_block e) in
+      match rs sub w1 (s_ctr s) with
+      | ROk w2 ctr ret logs =>
+          let n := Nat.min (Z.to_nat rsz) (length ret) in
+          let m2 := if (n =? 0)%nat then m1 else mwrite m1 (Z.to_nat ro) (firstn n ret) in
+          Continue (mkSt (S (s_pc s)) (1 :: r) m2 ret w2 ctr (s_logs s ++ logs))
+      | RRevert ctr ret =>
+          let n := Nat.min (Z.to_nat rsz) (length ret) in
+          let m2 := if (n =? 0)%nat then m1 else mwrite m1 (Z.to_nat ro) (firstn n ret) in
+          Continue (mkSt (S (s_pc s)) (0 :: r) m2 ret w ctr (s_logs s))
+      | RHalt ctr _ => fail_now [] ctr
+      | RFuel => Done RFuel
+      | RUnsupported x => Done (RUnsupported x)
+      end.
+
+Lemma do_call_cargs : forall rs e s op,
+  do_call lim rs e s op =
+  match cargs op (s_stack s) with
+  | None => halt s H_UNDERFLOW
+  | Some (to0, v, ao, asz, ro, rsz, r) => call_body rs e s op to0 v ao asz ro rsz r
+  end.
+Proof. reflexivity. Qed.
+
+Lemma nth_error_bytes : forall c i b, bytes_ok c -> nth_error c i = Some b -> 0 <= b < 256.
+Proof.
+  intros c i b H Hn. unfold bytes_ok in H. rewrite Forall_forall in H. apply H.
+  eapply nth_error_In. exact Hn.
+Qed.
+
+Lemma eval_if : forall (b : bool) x y, eval rho (if b then x else y) = if b then eval rho x else eval rho y.
+Proof. intros [] x y; reflexivity. Qed.
+
+Lemma be_bytes_aux_range : forall n x acc,
+  Forall (fun b => 0 <= b < 256) acc -> Forall (fun b => 0 <= b < 256) (be_bytes_aux n x acc).
+Proof.
+  induction n as [|n IH]; intros x acc H; cbn; [exact H|]. apply IH. constructor; [|exact H].
+  apply Z.mod_pos_bound. lia.
+Qed.
+
+Lemma be_bytes_nth_range : forall n x i, 0 <= nth i (be_bytes n x) 0 < 256.
+Proof.
+  intros n x i. pose proof (be_bytes_aux_range n x [] (Forall_nil _)) as H. fold (be_bytes n x) in H.
+  destruct (Nat.lt_ge_cases i (length (be_bytes n x))) as [Hl|Hl].
+  - rewrite Forall_forall in H. apply H. apply nth_In. exact Hl.
+  - rewrite nth_overflow by exact Hl. lia.
+Qed.
+
+Lemma const_byte_eval : forall b z, const_byte b = Some z -> beval rho b = z /\ 0 <= z < 256.
+Proof.
+  intros [i t] z. unfold const_byte, beval. cbn [fst snd]. destruct t; try discriminate.
+  intros H. assert (Hz : z = nth i (be_bytes 32 z0) 0) by congruence. clear H. rewrite Hz.
+  split; [reflexivity | apply be_bytes_nth_range].
+Qed.
+
+Lemma const_bytes_eval : forall l zs, const_bytes l = Some zs -> map (beval rho) l = zs /\ bytes_ok zs.
+Proof.
+  induction l as [|b l IH]; intros zs H; cbn [const_bytes] in H.
+  - injection H as <-. split; [reflexivity | constructor].
+  - destruct (const_byte b) as [z|] eqn:Eb; [|discriminate].
+    destruct (const_bytes l) as [zs'|]; [|discriminate]. injection H as <-.
+    destruct (IH zs' eq_refl) as [H1 H2]. destruct (const_byte_eval _ _ Eb) as [H3 H4].
+    cbn [map]. rewrite H1, H3. split; [reflexivity | constructor; assumption].
+Qed.
+
+Lemma WA_new_account : forall w cw new,
+  WA w cw ->
+  WA (mkSW ((new, []) :: sw_code w) ((new, []) :: sw_store w) ((new, []) :: sw_tstore w) (sw_bal w))
+     (mkWorld (aset new [] (w_code cw)) (aset new [] (w_storage cw)) (aset new [] (w_transient cw)) (w_balance cw)).
+Proof.
+  intros w cw new [c1 c2 c3 c4 c5 c6]. constructor.
+  - intros a. unfold get_code, sw_get_code, aset. cbn [w_code sw_code alookup].
+    destruct (a =? new); [reflexivity | apply c1].
+  - intros a. unfold has_account, sw_has_account, aset. cbn [w_code sw_code alookup].
+    destruct (a =? new); [reflexivity | apply c2].
+  - intros a k. cbn [sw_store w_storage]. unfold sload_of, aset. cbn [alookup].
+    destruct (Z.eq_dec a new) as [->|Hne].
+    + rewrite Z.eqb_refl, get_writes_head. reflexivity.
+    + rewrite get_writes_other by exact Hne. destruct (a =? new) eqn:E; [apply Z.eqb_eq in E; contradiction|]. apply c3.
+  - intros a k. cbn [sw_tstore w_transient]. unfold sload_of, aset. cbn [alookup].
+    destruct (Z.eq_dec a new) as [->|Hne].
+    + rewrite Z.eqb_refl, get_writes_head. reflexivity.
+    + rewrite get_writes_other by exact Hne. destruct (a =? new) eqn:E; [apply Z.eqb_eq in E; contradiction|]. apply c4.
+  - intros a. apply c5.
+  - intros a. unfold sw_get_code. cbn [sw_code alookup]. destruct (a =? new); [constructor | apply c6].
+Qed.
+
+Lemma WA_set_code : forall w cw new code,
+  WA w cw -> bytes_ok code ->
+  WA (mkSW ((new, code) :: sw_code w) (sw_store w) (sw_tstore w) (sw_bal w))
+     (mkWorld (aset new code (w_code cw)) (w_storage cw) (w_transient cw) (w_balance cw)).
+Proof.
+  intros w cw new code [c1 c2 c3 c4 c5 c6] Hb. constructor; auto.
+  - intros a. unfold get_code, sw_get_code, aset. cbn [w_code sw_code alookup].
+    destruct (a =? new); [reflexivity | apply c1].
+  - intros a. unfold has_account, sw_has_account, aset. cbn [w_code sw_code alookup].
+    destruct (a =? new); [reflexivity | apply c2].
+  - intros a. unfold sw_get_code. cbn [sw_code alookup]. destruct (a =? new); [exact Hb | apply c6].
+Qed.
+
 Section Rec.
 Variable rec : recfun.
 Hypothesis Hsound : sound_rec rec.
@@ -348,6 +608,468 @@ Proof.
         destruct Hin as [pre Hp]. eapply extends_cons. exact Hp.
 Qed.
 
+(* ---- CALL / CALLCODE / DELEGATECALL / STATICCALL ---- *)
+Lemma call_sound : forall fr w ctr sg s opc op,
+  nth_error (f_code fr) (ss_pc sg) = Some opc -> decode_op opc = ICall op ->
+  R2 fr w ctr sg s ->
+  forall l, In l (fst (call_step lim special oracle rec fr w ctr sg op)) -> sat rho (l2_path l) ->
+  exists n, outcome2 (l2_kind l) (exec lim n (inst_frame fr) s).
+Proof.
+  intros fr w ctr sg s opc op Hnth Hdec H2 l Hin Hsat.
+  assert (Hop : In op call_ops).
+  { eapply decode_call_op; [|exact Hdec]. eapply nth_error_bytes; [apply (R2_code _ _ _ _ _ H2) | exact Hnth]. }
+  assert (Hstep : forall rs, step lim rs (inst_frame fr) s = do_call lim rs (inst_frame fr) s op).
+  { intros rs. unfold step. cbn [e_code inst_frame]. rewrite (R2_pc _ _ _ _ _ H2), Hnth, Hdec. reflexivity. }
+  pose proof (R2_R _ _ _ _ _ H2) as HR.
+  pose proof H2 as [hpc hst hlen hmem hret hctr hW hcode].
+  unfold call_step in Hin.
+  destruct (call_args op (ss_stack sg)) as [[args|]|] eqn:Ea.
+  2: { destruct Hin as [<-|[]]. exists O. exact I. }
+  2: { (* stack underflow *)
+    destruct Hin as [<-|[]]. exists 1%nat. cbn [exec]. rewrite Hstep, do_call_cargs, hst, (cargs_eq _ _ Hop).
+    rewrite (call_args_none _ _ Ea). cbn [l2_kind outcome2 halt_leaf halt]. rewrite hctr. reflexivity. }
+  destruct args as [[[[[[to0 v] ao] asz] ro] rsz] r].
+  assert (Hcargs : cargs op (s_stack s) = Some (to0, eval rho v, ao, asz, ro, rsz, map (eval rho) r)).
+  { rewrite hst, (cargs_eq _ _ Hop). apply call_args_some. exact Ea. }
+  (* shape of the symbolic stack: a prefix of at least one element, then r *)
+  assert (Hshape : exists g, ss_stack sg = g ++ r /\ (1 <= length g)%nat).
+  { clear - Ea. unfold call_args in Ea. destruct (ss_stack sg) as [|g0 [|t0 rest]]; try discriminate.
+    destruct ((op =? 241) || (op =? 242)).
+    - destruct rest as [|v' [|a1 [|a2 [|a3 [|a4 r']]]]]; try discriminate.
+      destruct (as_const t0), (as_const a1), (as_const a2), (as_const a3), (as_const a4); try discriminate.
+      inversion Ea; subst. exists [g0; t0; v; a1; a2; a3; a4]. split; [reflexivity | cbn; lia].
+    - destruct rest as [|a1 [|a2 [|a3 [|a4 r']]]]; try discriminate.
+      destruct (as_const t0), (as_const a1), (as_const a2), (as_const a3), (as_const a4); try discriminate.
+      inversion Ea; subst. exists [g0; t0; a1; a2; a3; a4]. split; [reflexivity | cbn; lia]. }
+  destruct Hshape as [g [Hg Hglen]].
+  set (V := eval rho v) in *.
+  set (to := to0 mod 2 ^ 160) in *.
+  set (this := f_this fr) in *.
+  assert (Hbody : forall rs, step lim rs (inst_frame fr) s = call_body rs (inst_frame fr) s op to0 V ao asz ro rsz (map (eval rho) r)).
+  { intros rs. rewrite Hstep, do_call_cargs, Hcargs. reflexivity. }
+  clear Hstep.
+  (* static-context check *)
+  cbv zeta in Hin.
+  set (sv := if (op =? 241) && f_static fr then match v with TConst z => if z =? 0 then 0 else 1 | _ => 2 end else 0) in Hin.
+  destruct (sv =? 1) eqn:Esv1.
+  { destruct Hin as [<-|[]]. exists 1%nat. cbn [exec]. rewrite Hbody. unfold call_body. cbn [e_static inst_frame].
+    assert (Hc : (op =? 241) && f_static fr && negb (V =? 0) = true).
+    { subst sv. destruct ((op =? 241) && f_static fr); [|discriminate].
+      destruct v; try discriminate. subst V. cbn [eval]. destruct (z =? 0); [discriminate | reflexivity]. }
+    rewrite Hc. cbn [halt_leaf l2_kind outcome2 halt]. rewrite hctr. reflexivity. }
+  destruct (sv =? 2) eqn:Esv2; [destruct Hin as [<-|[]]; exists O; exact I|].
+  assert (Hstat : (op =? 241) && f_static fr && negb (V =? 0) = false).
+  { subst sv. destruct ((op =? 241) && f_static fr); [|reflexivity].
+    destruct v; try discriminate. subst V. cbn [eval]. destruct (z =? 0); [reflexivity | discriminate]. }
+  destruct (negb (nonneg [ao; asz; ro; rsz])) eqn:Enn; [destruct Hin as [<-|[]]; exists O; exact I|].
+  destruct (s_oog_range lim ao asz || s_oog_range lim ro rsz) eqn:Eoog.
+  { destruct Hin as [<-|[]]. exists 1%nat. cbn [exec]. rewrite Hbody. unfold call_body. cbn [e_static inst_frame].
+    rewrite Hstat. unfold s_oog_range in Eoog. unfold oog_range. rewrite Eoog.
+    cbn [halt_leaf l2_kind outcome2 halt]. rewrite hctr. reflexivity. }
+  destruct (((1 <=? to) && (to <=? 10)) || special to) eqn:Esp; [destruct Hin as [<-|[]]; exists O; exact I|].
+  apply orb_false_iff in Esp. destruct Esp as [Epre _].
+  (* memory after the two expansions, and the call data *)
+  set (m1c := mexpand (mexpand (s_mem s) (Z.to_nat ao) (Z.to_nat asz)) (Z.to_nat ro) (Z.to_nat rsz)).
+  assert (Hm1 : forall i, nth i m1c 0 = nth i (s_mem s) 0) by (intros i; subst m1c; rewrite !mexpand_nth; reflexivity).
+  assert (Hm1len : Z.to_nat rsz <> 0%nat -> (Z.to_nat ro + Z.to_nat rsz <= length m1c)%nat).
+  { intros Hn. subst m1c. apply mexpand_length. exact Hn. }
+  assert (Hdata : mread m1c (Z.to_nat ao) (Z.to_nat asz) = map (beval rho) (smread (ss_mem sg) (Z.to_nat ao) (Z.to_nat asz))).
+  { apply (mread_agree (se_of fr w) rho sg s); [exact HR | exact Hm1]. }
+  set (w0 := sync fr w sg) in *.
+  assert (HW0 : WA w0 (s_world s)) by exact hW.
+  assert (Hbal : get_balance (s_world s) this = eval rho (sw_balance w this)).
+  { rewrite (WA_bal _ _ HW0). reflexivity. }
+  (* what a failed call looks like on the concrete side *)
+  set (s_fail := fun ctr' (ret : list bterm) =>
+         mkSt (S (s_pc s)) (0 :: map (eval rho) r)
+              (let n := Nat.min (Z.to_nat rsz) (length (map (beval rho) ret)) in
+               if (n =? 0)%nat then m1c else mwrite m1c (Z.to_nat ro) (firstn n (map (beval rho) ret)))
+              (map (beval rho) ret) (s_world s) ctr' (s_logs s)).
+  assert (Hfail_R2 : forall ctr' ret p, R2 fr w0 ctr' (resume fr sg r 0 ret ro rsz w0 p) (s_fail ctr' ret)).
+  { intros ctr' ret p. subst s_fail. cbv beta. eapply R2_resume; eauto. }
+  destruct (1024 <? Z.of_nat (f_depth fr) + 1) eqn:Edepth.
+  { (* call depth exhausted *)
+    apply (step_then0 _ s (s_fail ctr [])).
+    - intros rs. rewrite Hbody. unfold call_body. cbn [e_static e_depth inst_frame]. rewrite Hstat.
+      unfold s_oog_range in Eoog. unfold oog_range. rewrite Eoog. fold to. rewrite Epre, Edepth.
+      subst s_fail. cbv beta. cbn [map length Nat.min Nat.eqb]. rewrite Nat.min_0_r. cbn [Nat.eqb]. rewrite hctr. reflexivity.
+    - eapply Hsound; [apply Hfail_R2 | exact Hin | exact Hsat]. }
+  set (transfers := (op =? 241) || (op =? 242)) in *.
+  set (c := TBin BLt (sw_balance w this) v) in *.
+  assert (Hc : eval rho c = b2w (get_balance (s_world s) this <? V)).
+  { subst c. cbn [eval bop_sem]. unfold evm_lt. rewrite Hbal. reflexivity. }
+  cbn [fst] in Hin. apply in_app_or in Hin. destruct Hin as [Hin|Hin].
+  - (* insufficient balance *)
+    destruct (transfers && negb (oracle (ss_path sg) c true =? R_UNSAT)) eqn:Etf; [|destruct Hin].
+    apply andb_true_iff in Etf. destruct Etf as [Etr _].
+    destruct (Hext _ _ _ _ _ Hin) as [pre Hp]. rewrite resume_path in Hp.
+    assert (Hlt : (get_balance (s_world s) this <? V) = true).
+    { rewrite Hp in Hsat. apply sat_app2 in Hsat. inversion Hsat as [|x xs Hx _]. subst.
+      unfold holds in Hx. cbn [fst snd negb] in Hx. rewrite Hc in Hx.
+      destruct (get_balance (s_world s) this <? V); [reflexivity | discriminate]. }
+    apply (step_then0 _ s (s_fail ctr [])).
+    + intros rs. rewrite Hbody. unfold call_body. cbn [e_static e_depth e_this inst_frame]. rewrite Hstat.
+      unfold s_oog_range in Eoog. unfold oog_range. rewrite Eoog. fold to. rewrite Epre, Edepth.
+      fold transfers. fold this. rewrite Etr, Hlt. cbn [andb].
+      subst s_fail. cbv beta. cbn [map length]. rewrite Nat.min_0_r. cbn [Nat.eqb]. rewrite hctr. reflexivity.
+    + eapply Hsound; [apply Hfail_R2 | exact Hin | exact Hsat].
+  - (* the callee runs *)
+    set (p_ok := if transfers then (c, false) :: ss_path sg else ss_path sg) in *.
+    set (w1 := if op =? 241 then sw_transfer w0 this to v else w0) in *.
+    set (sub_this := if (op =? 241) || (op =? 250) then to else this) in *.
+    set (sub := mkFrame sub_this (sw_get_code w to) (if op =? 244 then f_caller fr else TConst this)
+                        (f_origin fr) (if op =? 244 then f_value fr else v)
+                        (smread (ss_mem sg) (Z.to_nat ao) (Z.to_nat asz)) (f_static fr || (op =? 250))
+                        (S (f_depth fr)) (f_block fr)) in *.
+    set (s_sub := mkSS 0 [] [] (get_writes (sw_store w1) sub_this) (get_writes (sw_tstore w1) sub_this) p_ok [] []) in *.
+    destruct (resume_all_in _ _ _ _ _ _ _ _ _ Hin) as [sl [Hsl Hl]].
+    destruct (resume_one_extends _ _ _ _ _ _ _ _ _ Hl) as [pre1 Hp1].
+    destruct (Hext _ _ _ _ _ Hsl) as [pre2 Hp2]. cbn [ss_path s_sub] in Hp2.
+    assert (Hsat_sl : sat rho (l2_path sl)) by (rewrite Hp1 in Hsat; apply sat_app2 in Hsat; exact Hsat).
+    assert (Hsat_ok : sat rho p_ok) by (rewrite Hp2 in Hsat_sl; apply sat_app2 in Hsat_sl; exact Hsat_sl).
+    assert (Hge : transfers && (get_balance (s_world s) this <? V) = false).
+    { destruct transfers eqn:Etr; [|reflexivity]. subst p_ok. inversion Hsat_ok as [|x xs Hx _]. subst.
+      unfold holds in Hx. cbn [fst snd negb] in Hx. rewrite Hc in Hx.
+      destruct (get_balance (s_world s) this <? V); [discriminate | reflexivity]. }
+    (* the concrete callee *)
+    set (w1c := if op =? 241 then transfer (s_world s) this to V else s_world s).
+    assert (HW1 : WA w1 w1c).
+    { subst w1 w1c. destruct (op =? 241); [apply WA_transfer; exact HW0 | exact HW0]. }
+    set (subc := mkEnv (if (op =? 241) || (op =? 250) then to else this) (get_code (s_world s) to)
+                       (if op =? 244 then e_caller (inst_frame fr) else this) (e_origin (inst_frame fr))
+                       (if op =? 244 then e_value (inst_frame fr) else V)
+                       (mread m1c (Z.to_nat ao) (Z.to_nat asz))
+                       (f_static fr || (op =? 250)) (S (f_depth fr)) (f_block fr)).
+    assert (Hsubc : inst_frame sub = subc).
+    { subst sub subc. unfold inst_frame. cbn [f_this f_code f_caller f_origin f_value f_data f_static f_depth f_block e_caller e_origin e_value].
+      rewrite (WA_code _ _ HW0). cbn [sw_get_code w0 sync sw_code]. rewrite Hdata, !eval_if. reflexivity. }
+    assert (H2sub : R2 sub w1 ctr s_sub (init_state w1c (s_ctr s))).
+    { constructor.
+      - reflexivity.
+      - reflexivity.
+      - cbn; lia.
+      - intros i. destruct i; reflexivity.
+      - reflexivity.
+      - cbn. exact hctr.
+      - eapply WA_equiv; [|exact HW1]. apply sync_loaded_equiv; reflexivity.
+      - cbn [f_code sub]. apply (WA_codes_ok _ _ HW0 to). }
+    destruct (Hsound _ _ _ _ _ H2sub sl Hsl Hsat_sl) as [n1 Hn1]. rewrite Hsubc in Hn1.
+    (* the concrete step, given the callee's result *)
+    assert (Hpre_body : forall rs, step lim rs (inst_frame fr) s =
+              match rs subc w1c (s_ctr s) with
+              | ROk w2 ctr2 ret logs =>
+                  Continue (mkSt (S (s_pc s)) (1 :: map (eval rho) r)
+                     (let n := Nat.min (Z.to_nat rsz) (length ret) in
+                      if (n =? 0)%nat then m1c else mwrite m1c (Z.to_nat ro) (firstn n ret))
+                     ret w2 ctr2 (s_logs s ++ logs))
+              | RRevert ctr2 ret =>
+                  Continue (mkSt (S (s_pc s)) (0 :: map (eval rho) r)
+                     (let n := Nat.min (Z.to_nat rsz) (length ret) in
+                      if (n =? 0)%nat then m1c else mwrite m1c (Z.to_nat ro) (firstn n ret))
+                     ret (s_world s) ctr2 (s_logs s))
+              | RHalt ctr2 _ => Continue (mkSt (S (s_pc s)) (0 :: map (eval rho) r) m1c [] (s_world s) ctr2 (s_logs s))
+              | RFuel => Done RFuel
+              | RUnsupported x => Done (RUnsupported x)
+              end).
+    { intros rs. rewrite Hbody. unfold call_body. cbn [e_static e_depth e_this e_caller e_origin e_value e_block inst_frame].
+      rewrite Hstat. unfold s_oog_range in Eoog. unfold oog_range. rewrite Eoog. fold to. rewrite Epre, Edepth.
+      fold transfers. fold this. rewrite Hge. reflexivity. }
+    unfold resume_one in Hl.
+    destruct (l2_kind sl) as [ret w2 ctr2|ret ctr2|kd ctr2|why| |] eqn:Ek; cbn [outcome2] in Hn1.
+    + (* the callee succeeded *)
+      destruct Hn1 as [cw2 [logs [Hr HW2]]].
+      eapply (step_then _ s _ _ subc w1c (s_ctr s) _ n1 Hr); [discriminate | |].
+      * intros rs Hrs. rewrite Hpre_body, Hrs. reflexivity.
+      * eapply Hsound; [|exact Hl|exact Hsat].
+        eapply R2_resume; eauto.
+    + (* the callee reverted *)
+      eapply (step_then _ s _ _ subc w1c (s_ctr s) _ n1 Hn1); [discriminate | |].
+      * intros rs Hrs. rewrite Hpre_body, Hrs. reflexivity.
+      * eapply Hsound; [|exact Hl|exact Hsat]. apply (Hfail_R2 ctr2 ret).
+    + (* the callee halted exceptionally *)
+      eapply (step_then _ s (s_fail ctr2 []) _ subc w1c (s_ctr s) _ n1 Hn1); [discriminate | |].
+      * intros rs Hrs. rewrite Hpre_body, Hrs. subst s_fail. cbv beta. cbn [map length]. rewrite Nat.min_0_r. reflexivity.
+      * eapply Hsound; [|exact Hl|exact Hsat]. apply (Hfail_R2 ctr2 []).
+    + destruct Hl as [<-|[]]. rewrite Ek. exists O. exact I.
+    + destruct Hl as [<-|[]]. rewrite Ek. exists O. exact I.
+    + destruct Hl as [<-|[]]. rewrite Ek. exists O. exact I.
+Qed.
+
+(* ---- CREATE ---- *)
+Lemma create_sound : forall fr w ctr sg s opc,
+  nth_error (f_code fr) (ss_pc sg) = Some opc -> decode_op opc = ICreate ->
+  R2 fr w ctr sg s ->
+  forall l, In l (fst (create_step lim oracle rec fr w ctr sg)) -> sat rho (l2_path l) ->
+  exists n, outcome2 (l2_kind l) (exec lim n (inst_frame fr) s).
+Proof.
+  intros fr w ctr sg s opc Hnth Hdec H2 l Hin Hsat.
+  assert (Hstep : forall rs, step lim rs (inst_frame fr) s = do_create lim rs (inst_frame fr) s).
+  { intros rs. unfold step. cbn [e_code inst_frame]. rewrite (R2_pc _ _ _ _ _ H2), Hnth, Hdec. reflexivity. }
+  pose proof (R2_R _ _ _ _ _ H2) as HR.
+  pose proof H2 as [hpc hst hlen hmem hret hctr hW hcode].
+  unfold create_step, halt_leaf, stuck_leaf in Hin.
+  assert (Hunder : forall st', ss_stack sg = st' -> (length st' < 3)%nat ->
+            l = mkLeaf2 (ss_path sg) (K2Halt H_UNDERFLOW ctr) -> exists n, outcome2 (l2_kind l) (exec lim n (inst_frame fr) s)).
+  { intros st' Hs Hl ->. exists 1%nat. cbn [exec]. rewrite Hstep. unfold do_create. rewrite hst, Hs.
+    destruct st' as [|a [|b [|c' st']]]; cbn [map length] in *; try lia;
+      cbn [l2_kind outcome2 halt]; rewrite hctr; reflexivity. }
+  destruct (ss_stack sg) as [|v [|toff [|tsize r]]] eqn:Est.
+  1-2: cbn [fst In] in Hin; destruct Hin as [<-|[]]; eapply Hunder; [reflexivity | cbn; lia | reflexivity].
+  1: destruct toff; (cbn [fst In] in Hin; destruct Hin as [<-|[]]; eapply Hunder; [reflexivity | cbn; lia | reflexivity]).
+  destruct toff; try (destruct Hin as [<-|[]]; exists O; exact I).
+  destruct tsize; try (destruct Hin as [<-|[]]; exists O; exact I).
+  rename z into off. rename z0 into size.
+  set (V := eval rho v) in *. set (this := f_this fr) in *.
+  assert (Hbody : forall rs, step lim rs (inst_frame fr) s =
+            do_create lim rs (inst_frame fr) s) by exact Hstep.
+  assert (Hstk : s_stack s = V :: off :: size :: map (eval rho) r) by (rewrite hst; reflexivity).
+  destruct (f_static fr) eqn:Estatic.
+  { destruct Hin as [<-|[]]. exists 1%nat. cbn [exec]. rewrite Hstep. unfold do_create. rewrite Hstk.
+    cbn [e_static inst_frame]. rewrite Estatic. cbn [halt_leaf l2_kind outcome2 halt]. rewrite hctr. reflexivity. }
+  destruct (negb (nonneg [off; size])) eqn:Enn; [destruct Hin as [<-|[]]; exists O; exact I|].
+  destruct (s_oog_range lim off size) eqn:Eoog.
+  { destruct Hin as [<-|[]]. exists 1%nat. cbn [exec]. rewrite Hstep. unfold do_create. rewrite Hstk.
+    cbn [e_static inst_frame]. rewrite Estatic. unfold s_oog_range in Eoog. unfold oog_range. rewrite Eoog.
+    cbn [halt_leaf l2_kind outcome2 halt]. rewrite hctr. reflexivity. }
+  destruct (const_bytes (smread (ss_mem sg) (Z.to_nat off) (Z.to_nat size))) as [init|] eqn:Einit;
+    [|destruct Hin as [<-|[]]; exists O; exact I].
+  destruct (const_bytes_eval _ _ Einit) as [Hinit Hinit_ok].
+  set (m1c := mexpand (s_mem s) (Z.to_nat off) (Z.to_nat size)).
+  assert (Hm1 : forall i, nth i m1c 0 = nth i (s_mem s) 0) by (intros i; subst m1c; apply mexpand_nth).
+  assert (Hinitc : mread m1c (Z.to_nat off) (Z.to_nat size) = init).
+  { rewrite <- Hinit. apply (mread_agree (se_of fr w) rho sg s); [exact HR | exact Hm1]. }
+  set (ctr1 := ctr + 1) in *. set (new := CREATE_BASE + ctr1) in *.
+  set (w0 := sync fr w sg) in *.
+  assert (HW0 : WA w0 (s_world s)) by exact hW.
+  assert (Hbal : get_balance (s_world s) this = eval rho (sw_balance w this)) by (rewrite (WA_bal _ _ HW0); reflexivity).
+  assert (Hshape : ss_stack sg = [v; TConst off; TConst size] ++ r) by (rewrite Est; reflexivity).
+  set (s_fail := fun ctr' (ret : list bterm) =>
+         mkSt (S (s_pc s)) (0 :: map (eval rho) r) m1c (map (beval rho) ret) (s_world s) ctr' (s_logs s)).
+  assert (Hfail_R2 : forall ctr' ret p, R2 fr w0 ctr' (resume fr sg r 0 ret 0 0 w0 p) (s_fail ctr' ret)).
+  { intros ctr' ret p. subst s_fail. cbv beta.
+    pose proof (R2_resume fr w ctr sg s [v; TConst off; TConst size] r w0 (s_world s) ctr' 0 ret 0 0 p m1c (s_logs s)
+                          H2 ltac:(rewrite Est; reflexivity) ltac:(cbn; lia) HW0 Hm1 ltac:(cbn; lia)) as HH.
+    cbn [Z.to_nat Nat.min Nat.eqb] in HH. exact HH. }
+  (* the concrete step up to the sub-frame *)
+  assert (Hpre : forall rs, step lim rs (inst_frame fr) s =
+     if (1024 <? Z.of_nat (f_depth fr) + 1) then Continue (s_fail ctr1 [])
+     else if get_balance (s_world s) this <? V then Continue (s_fail ctr1 [])
+     else if has_account (s_world s) new then Continue (s_fail ctr1 [])
+     else
+       let w0c := mkWorld (aset new [] (w_code (s_world s))) (aset new [] (w_storage (s_world s)))
+                          (aset new [] (w_transient (s_world s))) (w_balance (s_world s)) in
+       let w1c := transfer w0c this new V in
+       let subc := mkEnv new init this (e_origin (inst_frame fr)) V [] false (S (f_depth fr)) (f_block fr) in
+       match rs subc w1c ctr1 with
+       | ROk w2 ctr' ret logs =>
+           Continue (mkSt (S (s_pc s)) (new :: map (eval rho) r) m1c []
+                          (mkWorld (aset new ret (w_code w2)) (w_storage w2) (w_transient w2) (w_balance w2))
+                          ctr' (s_logs s ++ logs))
+       | RRevert ctr' ret => Continue (mkSt (S (s_pc s)) (0 :: map (eval rho) r) m1c ret (s_world s) ctr' (s_logs s))
+       | RHalt ctr' _ => Continue (s_fail ctr' [])
+       | RFuel => Done RFuel
+       | RUnsupported x => Done (RUnsupported x)
+       end).
+  { intros rs. rewrite Hstep. unfold do_create. rewrite Hstk. cbn [e_static e_depth e_this e_origin e_block inst_frame].
+    rewrite Estatic. unfold s_oog_range in Eoog. unfold oog_range. rewrite Eoog. cbv zeta.
+    fold m1c. rewrite Hinitc. rewrite hctr. fold ctr1. fold new. fold this. reflexivity. }
+  cbv zeta in Hin.
+  destruct (1024 <? Z.of_nat (f_depth fr) + 1) eqn:Edepth.
+  { apply (step_then0 _ s (s_fail ctr1 [])); [intros rs; rewrite Hpre; reflexivity|].
+    eapply Hsound; [apply Hfail_R2 | exact Hin | exact Hsat]. }
+  set (c := TBin BLt (sw_balance w this) v) in *.
+  assert (Hc : eval rho c = b2w (get_balance (s_world s) this <? V)).
+  { subst c. cbn [eval bop_sem]. unfold evm_lt. rewrite Hbal. reflexivity. }
+  assert (Hfail_branch : forall l',
+     In l' (fst (if negb (oracle (ss_path sg) c true =? R_UNSAT)
+                 then rec fr w0 ctr1 (resume fr sg r 0 [] 0 0 w0 ((c, true) :: ss_path sg)) else ([], false))) ->
+     sat rho (l2_path l') -> exists n, outcome2 (l2_kind l') (exec lim n (inst_frame fr) s)).
+  { intros l' Hin' Hsat'. destruct (negb (oracle (ss_path sg) c true =? R_UNSAT)); [|destruct Hin'].
+    destruct (Hext _ _ _ _ _ Hin') as [pre Hp]. rewrite resume_path in Hp.
+    assert (Hlt : (get_balance (s_world s) this <? V) = true).
+    { rewrite Hp in Hsat'. apply sat_app2 in Hsat'. inversion Hsat' as [|x xs Hx _]. subst.
+      unfold holds in Hx. cbn [fst snd negb] in Hx. rewrite Hc in Hx.
+      destruct (get_balance (s_world s) this <? V); [reflexivity | discriminate]. }
+    apply (step_then0 _ s (s_fail ctr1 [])); [intros rs; rewrite Hpre, Hlt; reflexivity|].
+    eapply Hsound; [apply Hfail_R2 | exact Hin' | exact Hsat']. }
+  assert (Hge_of : forall p', sat rho (p' ++ (c, false) :: ss_path sg) -> (get_balance (s_world s) this <? V) = false).
+  { intros p' Hs. apply sat_app2 in Hs. inversion Hs as [|x xs Hx _]. subst.
+    unfold holds in Hx. cbn [fst snd negb] in Hx. rewrite Hc in Hx.
+    destruct (get_balance (s_world s) this <? V); [discriminate | reflexivity]. }
+  assert (Hacc : has_account (s_world s) new = sw_has_account w new).
+  { rewrite (WA_acc _ _ HW0). reflexivity. }
+  destruct (sw_has_account w new) eqn:Ecol.
+  - (* address collision *)
+    cbn [fst] in Hin. apply in_app_or in Hin. destruct Hin as [Hin|Hin]; [apply Hfail_branch; assumption|].
+    destruct (Hext _ _ _ _ _ Hin) as [pre Hp]. rewrite resume_path in Hp.
+    assert (Hge : (get_balance (s_world s) this <? V) = false) by (apply (Hge_of pre); rewrite Hp in Hsat; exact Hsat).
+    apply (step_then0 _ s (s_fail ctr1 [])); [intros rs; rewrite Hpre, Hge, Hacc; reflexivity|].
+    eapply Hsound; [apply Hfail_R2 | exact Hin | exact Hsat].
+  - cbn [fst] in Hin. apply in_app_or in Hin. destruct Hin as [Hin|Hin]; [apply Hfail_branch; assumption|].
+    set (p_ok := (c, false) :: ss_path sg) in *.
+    set (wn := mkSW ((new, []) :: sw_code w0) ((new, []) :: sw_store w0) ((new, []) :: sw_tstore w0) (sw_bal w0)) in *.
+    set (w1 := sw_transfer wn this new v) in *.
+    set (sub := mkFrame new init (TConst this) (f_origin fr) v [] false (S (f_depth fr)) (f_block fr)) in *.
+    set (s_sub := mkSS 0 [] [] [] [] p_ok [] []) in *.
+    destruct (resume_all_in _ _ _ _ _ _ _ _ _ Hin) as [sl [Hsl Hl]].
+    destruct (resume_one_extends _ _ _ _ _ _ _ _ _ Hl) as [pre1 Hp1].
+    destruct (Hext _ _ _ _ _ Hsl) as [pre2 Hp2]. cbn [ss_path s_sub] in Hp2.
+    assert (Hsat_sl : sat rho (l2_path sl)) by (rewrite Hp1 in Hsat; apply sat_app2 in Hsat; exact Hsat).
+    assert (Hge : (get_balance (s_world s) this <? V) = false) by (apply (Hge_of pre2); rewrite Hp2 in Hsat_sl; exact Hsat_sl).
+    set (w0c := mkWorld (aset new [] (w_code (s_world s))) (aset new [] (w_storage (s_world s)))
+                        (aset new [] (w_transient (s_world s))) (w_balance (s_world s))).
+    set (w1c := transfer w0c this new V).
+    set (subc := mkEnv new init this (e_origin (inst_frame fr)) V [] false (S (f_depth fr)) (f_block fr)).
+    assert (HW1 : WA w1 w1c).
+    { subst w1 w1c. apply WA_transfer. subst wn w0c. apply WA_new_account. exact HW0. }
+    assert (Hsubc : inst_frame sub = subc) by reflexivity.
+    assert (H2sub : R2 sub w1 ctr1 s_sub (init_state w1c ctr1)).
+    { constructor.
+      - reflexivity.
+      - reflexivity.
+      - cbn; lia.
+      - intros i. destruct i; reflexivity.
+      - reflexivity.
+      - reflexivity.
+      - eapply WA_equiv; [|exact HW1]. apply sync_loaded_equiv.
+        + subst w1 wn. unfold sw_transfer, sw_set_balance. cbn [sw_store f_this sub ss_store s_sub]. rewrite get_writes_head. reflexivity.
+        + subst w1 wn. unfold sw_transfer, sw_set_balance. cbn [sw_tstore f_this sub ss_tstore s_sub]. rewrite get_writes_head. reflexivity.
+      - exact Hinit_ok. }
+    destruct (Hsound _ _ _ _ _ H2sub sl Hsl Hsat_sl) as [n1 Hn1]. rewrite Hsubc in Hn1.
+    assert (Hpre2 : forall rs, step lim rs (inst_frame fr) s =
+       match rs subc w1c ctr1 with
+       | ROk w2 ctr' ret logs =>
+           Continue (mkSt (S (s_pc s)) (new :: map (eval rho) r) m1c []
+                          (mkWorld (aset new ret (w_code w2)) (w_storage w2) (w_transient w2) (w_balance w2))
+                          ctr' (s_logs s ++ logs))
+       | RRevert ctr' ret => Continue (mkSt (S (s_pc s)) (0 :: map (eval rho) r) m1c ret (s_world s) ctr' (s_logs s))
+       | RHalt ctr' _ => Continue (s_fail ctr' [])
+       | RFuel => Done RFuel
+       | RUnsupported x => Done (RUnsupported x)
+       end).
+    { intros rs. rewrite Hpre, Hge, Hacc. reflexivity. }
+    unfold resume_one in Hl.
+    destruct (l2_kind sl) as [ret w2 ctr2|ret ctr2|kd ctr2|why| |] eqn:Ek; cbn [outcome2] in Hn1.
+    + destruct Hn1 as [cw2 [logs [Hr HW2]]].
+      destruct (const_bytes ret) as [code|] eqn:Ecode.
+      * destruct (const_bytes_eval _ _ Ecode) as [Hcode_eq Hcode_ok].
+        eapply (step_then _ s _ _ subc w1c ctr1 _ n1 Hr); [discriminate | |].
+        -- intros rs Hrs. rewrite Hpre2, Hrs. reflexivity.
+        -- eapply Hsound; [|exact Hl|exact Hsat].
+           rewrite Hcode_eq.
+           pose proof (R2_resume fr w ctr sg s [v; TConst off; TConst size] r _ _ ctr2 new [] 0 0 (l2_path sl) m1c (s_logs s ++ logs)
+                         H2 ltac:(rewrite Est; reflexivity) ltac:(cbn; lia) (WA_set_code _ _ new code HW2 Hcode_ok) Hm1 ltac:(cbn; lia)) as HH.
+           cbn [Z.to_nat Nat.min Nat.eqb map] in HH. exact HH.
+      * destruct Hl as [<-|[]]. exists O. exact I.
+    + eapply (step_then _ s _ _ subc w1c ctr1 _ n1 Hn1); [discriminate | |].
+      * intros rs Hrs. rewrite Hpre2, Hrs. reflexivity.
+      * eapply Hsound; [|exact Hl|exact Hsat]. apply (Hfail_R2 ctr2 ret).
+    + eapply (step_then _ s (s_fail ctr2 []) _ subc w1c ctr1 _ n1 Hn1); [discriminate | |].
+      * intros rs Hrs. rewrite Hpre2, Hrs. reflexivity.
+      * eapply Hsound; [|exact Hl|exact Hsat]. apply (Hfail_R2 ctr2 []).
+    + destruct Hl as [<-|[]]. rewrite Ek. exists O. exact I.
+    + destruct Hl as [<-|[]]. rewrite Ek. exists O. exact I.
+    + destruct Hl as [<-|[]]. rewrite Ek. exists O. exact I.
+Qed.
+
+(* ---- one unfolding of the exploration ---- *)
+Lemma body_sound : sound_rec (body lim special oracle loop rec).
+Proof.
+  intros fr w ctr sg s H2 l Hin Hsat. unfold body in Hin.
+  destruct (nth_error (f_code fr) (ss_pc sg)) as [opc|] eqn:Hnth.
+  - destruct (decode_op opc) eqn:Hdec;
+      try (eapply (local_sound fr w ctr sg s _ opc); [| exact Hnth | exact Hdec | exact H2 | exact Hin | exact Hsat]; reflexivity).
+    + exact (create_sound fr w ctr sg s opc Hnth Hdec H2 l Hin Hsat).
+    + exact (call_sound fr w ctr sg s opc op Hnth Hdec H2 l Hin Hsat).
+  - (* running off the end of the code: implicit STOP *)
+    destruct Hin as [<-|[]]. exists 1%nat. cbn [exec]. unfold step. cbn [e_code inst_frame].
+    rewrite (R2_pc _ _ _ _ _ H2), Hnth. cbn [l2_kind leaf_of outcome2 map].
+    eexists _, _. split; [rewrite (R2_ctr _ _ _ _ _ H2); reflexivity|]. apply (R2_world _ _ _ _ _ H2).
+Qed.
+
+Lemma in_single : forall (l x : leaf2), In l [x] -> l = x.
+Proof. intros l x [H|[]]. symmetry. exact H. Qed.
+
+Lemma resume_all_extends : forall fr s subs wf rest ro rsz on_ok p l,
+  (forall sl, In sl (fst subs) -> exists pre, l2_path sl = pre ++ p) ->
+  In l (fst (resume_all rec fr s subs wf rest ro rsz on_ok)) -> exists pre, l2_path l = pre ++ p.
+Proof.
+  intros fr s subs wf rest ro rsz on_ok p l Hsub Hin.
+  destruct (resume_all_in _ _ _ _ _ _ _ _ _ Hin) as [sl [Hsl Hl]].
+  destruct (resume_one_extends _ _ _ _ _ _ _ _ _ Hl) as [pre1 Hp1].
+  destruct (Hsub sl Hsl) as [pre2 Hp2]. exists (pre1 ++ pre2). rewrite Hp1, Hp2, app_assoc. reflexivity.
+Qed.
+
+Lemma body_extends : extends_rec (body lim special oracle loop rec).
+Proof.
+  intros fr w ctr sg l Hin. unfold body in Hin.
+  assert (Hself : forall k, l = mkLeaf2 (ss_path sg) k -> exists pre, l2_path l = pre ++ ss_path sg).
+  { intros k ->. exists []. reflexivity. }
+  assert (Hres : forall w' c' rest st ret ro rsz w'' p pre0,
+            In l (fst (rec fr w' c' (resume fr sg rest st ret ro rsz w'' p))) -> p = pre0 ++ ss_path sg ->
+            exists pre, l2_path l = pre ++ ss_path sg).
+  { intros w' c' rest st ret ro rsz w'' p pre0 H Hp. apply Hext in H. rewrite resume_path in H.
+    destruct H as [pre Hl]. exists (pre ++ pre0). rewrite Hl, Hp, app_assoc. reflexivity. }
+  destruct (nth_error (f_code fr) (ss_pc sg)) as [opc|].
+  2: { apply in_single in Hin. eapply Hself. exact Hin. }
+  destruct (decode_op opc); try (eapply local_extends; exact Hin).
+  - (* create *)
+    unfold create_step, halt_leaf, stuck_leaf in Hin.
+    destruct (ss_stack sg) as [|v [|toff [|tsize r]]]; try (apply in_single in Hin; eapply Hself; exact Hin).
+    { destruct toff; apply in_single in Hin; eapply Hself; exact Hin. }
+    destruct toff; try (apply in_single in Hin; eapply Hself; exact Hin).
+    destruct tsize; try (apply in_single in Hin; eapply Hself; exact Hin).
+    destruct (f_static fr); [apply in_single in Hin; eapply Hself; exact Hin|].
+    destruct (negb (nonneg [z; z0])); [apply in_single in Hin; eapply Hself; exact Hin|].
+    destruct (s_oog_range lim z z0); [apply in_single in Hin; eapply Hself; exact Hin|].
+    destruct (const_bytes _); [|apply in_single in Hin; eapply Hself; exact Hin].
+    cbv zeta in Hin.
+    destruct (1024 <? Z.of_nat (f_depth fr) + 1); [eapply (Hres _ _ _ _ _ _ _ _ _ []); [exact Hin | reflexivity]|].
+    assert (Hf : forall (b : bool) w' c' rest st ret ro rsz w'' cnd,
+              In l (fst (if b then rec fr w' c' (resume fr sg rest st ret ro rsz w'' (cnd :: ss_path sg)) else ([], false))) ->
+              exists pre, l2_path l = pre ++ ss_path sg).
+    { intros b w' c' rest st ret ro rsz w'' cnd H. destruct b; [|destruct H].
+      eapply (Hres _ _ _ _ _ _ _ _ _ [cnd]); [exact H | reflexivity]. }
+    destruct (sw_has_account w _); cbn [fst] in Hin; apply in_app_or in Hin; destruct Hin as [Hin|Hin];
+      try (eapply Hf; exact Hin).
+    + eapply (Hres _ _ _ _ _ _ _ _ _ [_]); [exact Hin | reflexivity].
+    + eapply (resume_all_extends _ _ _ _ _ _ _ _ (ss_path sg)); [|exact Hin].
+      intros sl Hsl. apply Hext in Hsl. cbn [ss_path] in Hsl. destruct Hsl as [pre Hp].
+      eapply extends_cons. exact Hp.
+  - (* call *)
+    unfold call_step, halt_leaf, stuck_leaf in Hin.
+    destruct (call_args op (ss_stack sg)) as [[[[[[[[to0 v] ao] asz] ro] rsz] r]|]|];
+      try (apply in_single in Hin; eapply Hself; exact Hin).
+    cbv zeta in Hin.
+    repeat match type of Hin with
+           | In _ (fst (if ?b then ([_], false) else _)) => destruct b; [apply in_single in Hin; eapply Hself; exact Hin|]
+           end.
+    destruct (1024 <? Z.of_nat (f_depth fr) + 1); [eapply (Hres _ _ _ _ _ _ _ _ _ []); [exact Hin | reflexivity]|].
+    cbn [fst] in Hin. apply in_app_or in Hin. destruct Hin as [Hin|Hin].
+    + match type of Hin with In _ (fst (if ?b then _ else _)) => destruct b; [|destruct Hin] end.
+      eapply (Hres _ _ _ _ _ _ _ _ _ [_]); [exact Hin | reflexivity].
+    + eapply (resume_all_extends _ _ _ _ _ _ _ _ (ss_path sg)); [|exact Hin].
+      intros sl Hsl. apply Hext in Hsl. cbn [ss_path] in Hsl. destruct Hsl as [pre Hp].
+      destruct ((op =? 241) || (op =? 242)); [eapply extends_cons; exact Hp | exists pre; exact Hp].
+Qed.
+
 End Rec.
+
+(* ---------------------------------------------------------------- the theorem *)
+Theorem sexec2_sound_ext : forall fuel,
+  sound_rec (sexec2 lim special oracle loop fuel) /\ extends_rec (sexec2 lim special oracle loop fuel).
+Proof.
+  induction fuel as [|f [IH1 IH2]]; cbn [sexec2].
+  - split.
+    + intros fr w ctr sg s _ l Hin _. destruct Hin as [<-|[]]. exists O. exact I.
+    + intros fr w ctr sg l Hin. destruct Hin as [<-|[]]. exists []. reflexivity.
+  - split; [apply body_sound; assumption | apply body_extends; assumption].
+Qed.
+
+Theorem sexec2_sound : forall fuel fr w ctr sg s,
+  R2 fr w ctr sg s ->
+  forall l, In l (fst (sexec2 lim special oracle loop fuel fr w ctr sg)) -> sat rho (l2_path l) ->
+  exists n, outcome2 (l2_kind l) (exec lim n (inst_frame fr) s).
+Proof. intros fuel. apply (proj1 (sexec2_sound_ext fuel)). Qed.
 
 End CS.
